@@ -17,7 +17,9 @@ The oracle (`laws`, evaluated on the live objects inside run_impl, reported in t
 written from the English statement: deep-copy before each operation and compare afterwards, shallow
 identity snapshots of every node, get-after-set, frame, set-same, SKIP ignored, items = independent
 DFS leaf enumeration, multi-key reads aligned, apply = independent recursive leaf map, in-place set
-touches only objects on the path.
+touches only objects on the path; a successful single-path set INTO an ndarray (any depth, ints / tuples of ints) is
+numpy's item assignment on a copy of the array (in place: on the array): read-back of the broadcast value + frame
+inside the array (`_array_set_law`, wp-C18D).
 """
 import copy
 import itertools
@@ -40,15 +42,17 @@ TRUSTED = [
     'in the correspondence, which compares object identity, BUFFER identity (owner of the memory: end of the .base chain), window '
     'offset, shape and elements of every array in every result; modelled-not-verified numpy facts: basic integer indexing returns a view '
     '(ndim > 1) or a scalar, copy.copy(arr) owns a new buffer, assignment broadcasts (surplus leading 1-dims dropped, lists converted with '
-    'at most ndim(window) dimensions), int64 only; a tuple-of-ints key (numpy multi-dimensional index) is NOT modelled: the model skips the '
-    'op, the real code still runs the copying ones and the ORACLE alone judges them; key_paths= views are not modelled',
+    'at most ndim(window) dimensions), int64 only; a tuple-of-ints key (numpy multi-dimensional index) resolves its axes in ONE step '
+    '(XKey.tup / tupWin in Model/Tree.lean, wp-C18D): modelled in every read and every single-path set; a set that would STORE a tuple as a dict key '
+    '(tuple key met at a dict / below a NullMap), multi-path sets / updates with tuple keys and normalize_keys of tuples stay outside: the model skips / '
+    'answers `.other`, the real code still runs the copying ones and the ORACLE alone judges them; slice keys and key_paths= views are not modelled',
     'reserved keys vs plain strings of the same spelling: on the wire the reserved key is the bare string "SELF"/"SKIP", a plain str key is '
     '{"s": "SELF"}; World.pkey builds Key.SELF / the str, the driver PKey.self / PKey.str "SELF"; `_is_key` is written out in '
     'Model/TreeKey.lean (Python types of key objects, isinstance along Reserved<str and Index<int, == on key objects) and proved equal to the '
     'pattern matching of Model/Tree.lean (C18_reserved_vs_plain_model); modelled-not-verified: Reserved subclasses str with inherited __eq__/__hash__',
 ]
 ASSUMPTIONS = [
-    'leaves are int/str/None; ndarrays are int64, 1-D or 2-D, C-contiguous (owning arrays and views of them); dict keys are '
+    'leaves are int/str/None; ndarrays are int64, 1-D to 3-D, C-contiguous (owning arrays and views of them); dict keys are '
     'str/int/Index/Literal objects (an Index and the equal int never in one dict; str keys of ANY spelling, the spellings of the reserved keys included; '
     'never a Reserved OBJECT, a bool or a float as a dict key of the input: 1 == True == 1.0 collide by value like Index(1) == 1 and are not modelled); '
     'the view is built without key_paths',
@@ -64,7 +68,10 @@ RULE = ('heaps of <= ~25 cells (trees of depth <= 4 of dict/list/tuple with int/
         'buffer with another array inside or outside the tree) and copying AND in-place sets / updates / reads / items / apply whose paths '
         'index into them (existing / negative / out-of-range index, key == len (AssertionError), str key, SELF / SKIP below the array, too '
         'deep; values: int, arrays of equal / broadcastable / incompatible shape incl. a view of the same buffer, flat / nested / ragged int '
-        'lists, str, None, dict, NullMap) — model and code compared incl. buffer sharing; tuple-of-ints keys oracle only; (b) iterate a view, derive a view by '
+        'lists, str, None, dict, NullMap) — model and code compared incl. buffer sharing; (a2, wp-C18D, drawn LAST) 2-D / 3-D arrays and views of a 3-D '
+        "array's buffer, 1..3 axes resolved below the array by ints / Index / tuples of ints (full, partial, split, empty, out of range, too long), copying and "
+        'in-place sets with values broadcast to the addressed block (equal shape, fewer dims, size-1 axes, surplus leading 1-axes, incompatible, nested lists / '
+        'tuples, views of the same buffer, non-numeric), reads and multi-key reads — all predicted by the model; (b) iterate a view, derive a view by '
         'a copying set/update that changes the set of leaf paths (fresh key, append, leaf->subtree, subtree->leaf), iterate the '
         'derived view object itself, chains of these. Along a sequence the SAME view objects are used (the view an op returned is '
         'the one later ops read) and the items oracle is evaluated on every source and derived view object; '
